@@ -1074,15 +1074,16 @@ func (h *history) run() {
 
 // fanKeys returns a function from a branch byte to a key literal such that all 256 keys are siblings below one
 // inner node (nil when the kind has no such family for this variant).
-var fanLongPre = false // the next byte-string fan sits below a compressed path longer than the inline limit
+var fanLongPre = 0 // >0: the next byte-string fan sits below a compressed path of that many bytes
 
 func fanKeys(spec string, r *rand.Rand) func(b int) string {
 	f := strings.Fields(spec)
 	switch f[0] {
 	case "alpha":
 		pre := pick(r, []string{"", "ab", strings.Repeat("p", 9), strings.Repeat("p", 10), strings.Repeat("p", 13)})
-		if fanLongPre {
-			pre = "L" + strings.Repeat("q", pick(r, []int{11, 13, 22, 258}))
+		if fanLongPre > 0 {
+			// (a first letter of its own per length: the long run is ONE node's path, not split by an earlier fan's keys)
+			pre = string(rune('L'+fanLongPre%7)) + strings.Repeat("q", fanLongPre)
 		}
 		tail := pick(r, []string{"", "x", "xy"})
 		return func(b int) string {
@@ -1612,6 +1613,18 @@ func runTreeMode(cfg treeRunCfg, tr *transcript) {
 				// the long schemas: one history over clusters (a few long compressed paths with branch points beyond the
 				// inline limit – not mixed with anything that would split them), one with a branch point at every depth
 				h.uni = []universe{hc.unis[1+i]}
+				if i == 0 {
+					h.uni = []universe{hc.unis[3]}
+				}
+			}
+			if hc.numTy != "" {
+				// the special values of the type (extremes, sign boundary, zeros, subnormals, infinities, NaN) are
+				// part of every numeric history
+				for _, u := range hc.unis {
+					if strings.HasSuffix(u.name, "-specials") && u.name != h.uni[0].name {
+						h.uni = append(h.uni, u)
+					}
+				}
 			}
 			if r.Intn(3) == 0 {
 				h.uni = append(h.uni, pick(r, hc.unis))
@@ -1624,11 +1637,13 @@ func runTreeMode(cfg treeRunCfg, tr *transcript) {
 				}
 				h.runFan(fk)
 				if fam == "alpha" {
-					// and once more below a long compressed path
-					fanLongPre = true
-					fk2 := fanKeys(hc.spec, r)
-					fanLongPre = false
-					h.runFan(fk2)
+					// and once more below a long compressed path, and below one of more than 2^8 bytes
+					for _, L := range []int{pick(r, []int{11, 13, 22}), 258} {
+						fanLongPre = L
+						fk2 := fanKeys(hc.spec, r)
+						fanLongPre = 0
+						h.runFan(fk2)
+					}
 				}
 			} else {
 				tr.comment(fmt.Sprintf("history tree=%d spec=%q universe=%s ops=%d", nextID, hc.spec, h.uni[0].name, hc.ops))
